@@ -87,6 +87,9 @@ def gen_inputs(ctx, rnd):
     special = ['#', '# ', '#define', '#define ', '#define A', '#define A 1', '#define A 1\nA', '# define A 1\nA A\n#define B\nB\n', '#define A B C\n A;A \n#define Z\n',
                '/*', '/* a', '/**/', '/***/', '/* * / */x', 'a/*b*/c', '"/*"', '"a\\"b"', "'\\''", 'x\\\ny', 'x\\  \ny', 'x\\ y', 'a z zz aa b', 'z y x w', 'aa ab a b',
                'int a = "xy"; /* c */ b \\\n c\n', '"" "a" "" "bc"', 'L"ab" "c"', 'a.b->c <<= 2 ... 1.5e3f 0x1FuL 07 \'\\n\'', 'a\x80\xffb', '\t\x0b\x0c a']
+    # many distinct identifiers (rename-toks index table), function-like macros (define)
+    special += [' '.join(f'v{i}' for i in range(k)) + '\n' for k in (15, 16, 17, 18, 33, 70)]
+    special += ['#define A(x) x\nA B\n#define B 1\nB\n', '#define F( y\nF F\n#define G 2\nG G\n', 'Q\n#define Q(\n#define R r\nR\n']
     rn = []
     toks = ALPHA + ['while', 'x1', '==', '<<=', '...', '1.5e3', '{', '}', ',', '"str ing"', '/* c */', '// x', '%>', '<:']
     for _ in range(60 if ctx.quick() else 1500):
@@ -168,7 +171,7 @@ def explore(ctx):
     if ctx.quick():
         # all modes on the special inputs, two random modes on the others
         def pick(i):
-            if i < 30:
+            if i < 40:
                 return modes
             ms = rnd.sample(modes, 2)
             if '#' in inputs[i] and rnd.random() < 0.7:
